@@ -139,33 +139,39 @@ func (g *gen) translate(fi *fnInfo) (err error) {
 			addRoot(v)
 		}
 	}
-	res := sig.Results()
-	for i := 0; i < res.Len(); i++ {
-		rt := res.At(i).Type()
-		if res.At(i).Name() != "" && res.At(i).Name() != "_" {
-			t.fail(nil, "named results are not supported")
-		}
-		if isErrorType(rt) {
-			if i != res.Len()-1 {
-				t.fail(nil, "error result must be last")
+	var lines []string
+	fragTy, fragDesc := "", ""
+	if fi.spec.Fragment != nil {
+		lines, fragTy, fragDesc = t.translateFragment(fi.spec.Fragment, e)
+	} else {
+		res := sig.Results()
+		for i := 0; i < res.Len(); i++ {
+			rt := res.At(i).Type()
+			if res.At(i).Name() != "" && res.At(i).Name() != "_" {
+				t.fail(nil, "named results are not supported")
 			}
-			fi.hasErr = true
-			continue
+			if isErrorType(rt) {
+				if i != res.Len()-1 {
+					t.fail(nil, "error result must be last")
+				}
+				fi.hasErr = true
+				continue
+			}
+			k, ok := kindOf(rt)
+			if !ok {
+				t.fail(nil, "unsupported result type %s", rt)
+			}
+			fi.results = append(fi.results, k)
 		}
-		k, ok := kindOf(rt)
-		if !ok {
-			t.fail(nil, "unsupported result type %s", rt)
+		t.prescan(fi.decl.Body)
+		final := func(e *env) []string {
+			if len(fi.results) > 0 || fi.hasErr {
+				t.fail(nil, "control reaches the end of the function without a return")
+			}
+			return t.ret(nil, nil, e)
 		}
-		fi.results = append(fi.results, k)
+		lines = t.stmts(fi.decl.Body.List, e, final)
 	}
-	t.prescan(fi.decl.Body)
-	final := func(e *env) []string {
-		if len(fi.results) > 0 || fi.hasErr {
-			t.fail(nil, "control reaches the end of the function without a return")
-		}
-		return t.ret(nil, nil, e)
-	}
-	lines := t.stmts(fi.decl.Body.List, e, final)
 
 	// parameters: Go signature order, then struct field order; bindings last in spec order
 	sort.SliceStable(fi.params, func(i, j int) bool {
@@ -210,8 +216,12 @@ func (g *gen) translate(fi *fnInfo) (err error) {
 	if fi.spec.Recv != nil {
 		recv = "(" + *fi.spec.Recv + ")."
 	}
-	hdr := []string{fmt.Sprintf("/-- Go `%s%s` (%s). -/", recv, fi.spec.Func, fi.spec.File),
-		fmt.Sprintf("def %s%s : %s :=", fi.leanName, sp(pd), t.resultType())}
+	resTy, what := t.resultType(), ""
+	if fi.spec.Fragment != nil {
+		resTy, what = fragTy, ": "+fragDesc
+	}
+	hdr := []string{fmt.Sprintf("/-- Go `%s%s` (%s)%s. -/", recv, fi.spec.Func, fi.spec.File, what),
+		fmt.Sprintf("def %s%s : %s :=", fi.leanName, sp(pd), resTy)}
 	fi.body = append(hdr, indent(fix(lines), 1)...)
 	fi.panics = t.canPanic
 	return nil
